@@ -57,8 +57,12 @@ LStripFrom(s, i, S) == IF i <= Len(s) /\ Ch(s, i) \in S THEN LStripFrom(s, i + 1
 LStrip(s, S) == SubSeq(s, LStripFrom(s, 1, S), Len(s))
 HasChar(s, c) == IndexOf(s, c, 1) # 0
 
+\* n spaces, cut from a bank built by doubling (deep recursion is slow in TLC)
+RECURSIVE Doubled(_, _)
+Doubled(s, k) == IF k = 0 THEN s ELSE Doubled(s \o s, k - 1)
+SpaceBank == Doubled(" ", 12)                                      \* 4096 spaces
 RECURSIVE Spaces(_)
-Spaces(n) == IF n <= 0 THEN "" ELSE " " \o Spaces(n - 1)
+Spaces(n) == IF n <= 0 THEN "" ELSE IF n <= 4096 THEN SubSeq(SpaceBank, 1, n) ELSE SpaceBank \o Spaces(n - 4096)
 RECURSIVE JoinWith(_, _, _)
 JoinWith(parts, sep, k) == IF k > Len(parts) THEN ""
                            ELSE IF k = Len(parts) THEN parts[k]
